@@ -308,7 +308,7 @@ class System:
         """Get node index from component name"""
         if name in self._g.attrs["nodes"]:
             return self._g.attrs["nodes"][name]
-        if name in self._g.attrs["rails"].values():
+        if name != "" and name in self._g.attrs["rails"].values():
             cname = [
                 i for i in self._g.attrs["rails"] if self._g.attrs["rails"][i] == name
             ]
@@ -318,9 +318,8 @@ class System:
 
     def _chk_parent(self, parent: str):
         """Check if parent exists"""
-        if (
-            parent in self._g.attrs["nodes"].keys()
-            or parent in self._g.attrs["rails"].values()
+        if parent in self._g.attrs["nodes"].keys() or (
+            parent != "" and parent in self._g.attrs["rails"].values()
         ):
             return True
 
